@@ -51,6 +51,25 @@ def run(ck: Check):
         v = "Y" + "".join("Y" if r.random() < bias else "N" for _ in range(800))
         strategy = r.choice(["minimize", "minimize-around", "minimize-balanced"])
         ex.one(strategy, r.choice(cfgs), tc, content(tc), v, stream="random")
+    # "and the final file": also when the run is cut short by a transient fault while a candidate is being written
+    # (the k-th write to the testcase path fails half-way, once) - what is left must not be a torn candidate
+    from explore import is_subred, replay_doc
+    from runner import impl_session
+    for strategy in ("minimize", "minimize-around", "minimize-balanced"):
+        for atom, data in (("line", b"// head\n// DDBEGIN\nl1\nl2\nl3\nl4\nl5\nl6\n// DDEND\n// tail\n"),
+                           ("jsstr", b'f("abcdefgh", "ijkl");\n'), ("char", b"abcdefgh")):
+            for k in (1, 2, 3, 4, 6):
+                for v in ("YNY" * 10, "YYYYYYYY", "YNNYNNY", "YYNNYYNN"):
+                    run_ = impl_session([{"strategy": strategy, "cfg": {}, "atom": atom, "file0": data, "verdict": v,
+                                          "write_fault": k}])[0]
+                    ck.count("write-fault")
+                    ck.nontrivial(("write-fault", strategy, atom, k, v))
+                    ctx = {"strategy": strategy, "cfg": {}, "tc": run_.loaded, "file0": data, "verdicts": v, "clock": [],
+                           "atom": atom, "exc_class": "TestRaised", "load": True, "write_fault": k}
+                    if run_.exc not in ("Hang", "CapHit") and not is_subred(run_.loaded, run_.final):
+                        ck.violation(f"{strategy}/{atom}: write number {k} to the testcase file failed half-way (once); "
+                                     f"the run ended ({run_.exc}) leaving {run_.final!r}, which is not the original with "
+                                     f"reducible atoms deleted", replay_doc(ctx, run_, write_fault=k))
     ex.diff()
     return ck.finish(level="proof", rule=RULE, assumptions=[
         "minimize-around / minimize-balanced: see DESIGN.md for which of their theorems are proved"])
